@@ -85,6 +85,7 @@ def run_generic(prop: str, idx: Index, rep: Report, tier: str) -> None:
 
         raise AnalysisError(f"{g} strip-charset-misuse: the fixture no longer gives one report and one pass")
     n += rules2.strip_charset_misuse(rep, f"{g} strip-given-a-prefix", funcs) or 0
+    n += rules2.enumeration_domain_matches_variable(rep, f"{g} enumeration-domain-is-the-variable's-type", funcs) or 0
     n += rules2.stale_guard(rep, f"{g} guard-tests-the-sibling-variable", funcs) or 0
     rep.count("generic_instances", n)
 
